@@ -138,7 +138,7 @@ def s_readers(F, R):
             if tr.endswith("AsyncReadExt") or tr.endswith("async_read::AsyncRead") or tr in ("std::io::Read", "std::io::BufRead") \
                     or tr.endswith("AsyncBufReadExt") or tr.endswith("AsyncBufRead"):
                 n += 1
-                ok = d in READ_OK and (d.endswith("read_exact") or f["id"].endswith("::poll"))
+                ok = d in READ_OK and (d.endswith("read_exact") or f["id"].endswith("::poll") or f["root"].startswith("common::poll::"))
                 R.check(ok, "S-readers", "%s/%s" % (f["root"], fn.get("name")),
                         "%s reads the transport with %s: only read_exact (and poll_read inside the poll decoder) keep "
                         "`ran out of bytes` an EOF-class I/O error and never over-read the frame" % (f["root"], d), where=loc(x))
@@ -164,7 +164,7 @@ def s_writers(F, R):
                 R.check(d in WRITE_OK, "S-writers", "%s/%s" % (f["root"], fn.get("name")),
                         "%s writes to the sink with %s instead of write_all: partial or zero-length writes are not turned into errors" % (f["root"], d),
                         where=loc(x))
-    R.floor("S-writers", "sink call sites", n, 10)
+    R.floor("S-writers", "sink call sites", n, 5)
     R.analysed["sink_call_sites"] = n
     _buffered(F, R)
 
@@ -263,6 +263,9 @@ def s_ioerr(F, R):
                 R.ok("S-ioerr", key, "`?`")
             elif first.get("k") == "Return":
                 R.ok("S-ioerr", key, "returned to the caller as it is")
+            elif first.get("k") == "Match" and first.get("scrut") is node and \
+                    all(_pat_root(a["pat"]) == "Ok" or _propagates(a["body"]) for a in first["arms"]):
+                R.ok("S-ioerr", key, "matched, every arm that can see the Err propagates it")
             elif first.get("k") == "Call" and first["fn"].get("name") == "map_err" and len(chain) > 1 and chain[1].get("k") == "Try":
                 nmap += 1
                 R.ok("S-ioerr", key + "/map_err", "map_err then `?` (that the mapping keeps the kind is H-noswallow's evaluated rule)")
@@ -295,6 +298,12 @@ def _is_tail_of_fn(par, x, b):
             if p.get("expr") is not node:
                 return False
         elif p.get("k") in ("Await", "Borrow", "Deref"):
+            pass
+        elif p.get("k") is None and "pat" in p and p.get("body") is node:
+            pass                      # the body of a match arm ..
+        elif p.get("k") == "Match" and node is not p.get("scrut"):
+            pass                      # .. of a match that is itself in tail position
+        elif p.get("k") == "If" and node is not p.get("cond"):
             pass
         else:
             return False
